@@ -39,6 +39,7 @@
 #include "Variogram/DirParam.hpp"
 #include "Variogram/Vario.hpp"
 #include "Variogram/VarioParam.hpp"
+#include "Variogram/VMap.hpp"
 
 #include <algorithm>
 #include <array>
@@ -1117,6 +1118,177 @@ VF_PART(grid_3d)
     g.npas = 3;
     if (idx[6] == 6) g.multiple = true; else g.gis = {{GI[idx[6]][0], GI[idx[6]][1], GI[idx[6]][2]}};
     runGrid(C, g, std::to_string(id), id);
+  });
+}
+
+// ---- part: variogram maps of gridded data (db_vmap): FFT route vs direct route vs pairwise definition -------------------------
+// Cell (l_1,..,l_d) of the map = the lag vector l (in grid meshes). Judged, for every cell and every variable pair:
+//   * number of pairs with that separation (both FFT and direct route), exactly (FFT: to 1e-7);
+//   * variogram: half mean (cross-)increment product over those pairs; non-centred covariance: mean of z_i(x)*z_j(x+l);
+//     symmetry of the variogram map in +-l;
+//   * FFT route == direct route (`flag_FFT=false`) cell by cell wherever the cell holds pairs;
+//   * centred covariance: pair counts only (the FFT route centres with per-lag means, the direct route does not centre:
+//     no written definition to arbitrate).
+// The orientation of the cross non-centred covariance (which variable is the tail of +l) is read on the first case that
+// determines it and must then be the same for every other case and for both routes.
+static int g_vmapOrient = 0;
+static std::vector<std::string> namesWith(const Db* db, const std::string& key)
+{
+  std::vector<std::string> out;
+  for (const auto& n : db->getAllNames()) if (n.find(key) != std::string::npos) out.push_back(n);
+  return out;
+}
+struct MCase { std::vector<int> nn, half; int calc; std::vector<std::vector<double>> z; };
+static void runVmap(Ctx& C, const MCase& m, const std::string& kase, uint64_t sig)
+{
+  int ndim = (int)m.nn.size(), nvar = (int)m.z.size();
+  setDim(ndim);
+  VectorInt nn(m.nn.begin(), m.nn.end()); VectorDouble dx(ndim, 1.), x0(ndim, 0.);
+  DbGrid* grid = DbGrid::create(nn, dx, x0);
+  int n = grid->getSampleNumber();
+  for (int iv = 0; iv < nvar; iv++) grid->addColumns(VectorDouble(m.z[iv].begin(), m.z[iv].end()), "z" + std::to_string(iv + 1), ELoc::Z, iv);
+  VectorInt half(m.half.begin(), m.half.end());
+  std::string desc = "db_vmap calc=" + std::string(calcName[m.calc]) + " grid " + vstr(m.nn) + " half-size " + vstr(m.half) + " nvar " + std::to_string(nvar) + " z1=" + vstr(m.z[0]) + (nvar > 1 ? " z2=" + vstr(m.z[1]) : "");
+  DbGrid* mf = db_vmap(grid, calcEnum(m.calc), half, VectorDouble(), 0, true);
+  DbGrid* md = db_vmap(grid, calcEnum(m.calc), half, VectorDouble(), 0, false);
+  C.eval(2);
+  if (mf == nullptr || md == nullptr)
+  {
+    C.violation(std::string("vmap:compute-failed:") + (mf == nullptr ? "fft" : "direct"), desc, kase);
+    delete mf; delete md; delete grid; setDim(2); return;
+  }
+  // output layout: the map grid (rank + coordinates) is followed by nvar*(nvar+1)/2 value columns then as many pair-count
+  // columns, ordered (0,0),(1,0),(1,1).. (with several variables only the first nvar of each block get a VMAP.* name, so
+  // the columns are addressed by rank, not by name)
+  int nv2 = nvar * (nvar + 1) / 2;
+  int col0 = 1 + ndim;
+  if (mf->getColumnNumber() != col0 + 2 * nv2 || md->getColumnNumber() != col0 + 2 * nv2)
+  {
+    C.violation("vmap:output-columns", "expected " + std::to_string(2 * nv2) + " result columns, found " + std::to_string(mf->getColumnNumber() - col0) + " :: " + desc, kase);
+    delete mf; delete md; delete grid; setDim(2); return;
+  }
+  auto column = [&](DbGrid* db, int icol) { VectorDouble v(db->getSampleNumber()); for (int k = 0; k < db->getSampleNumber(); k++) v[k] = db->getValueByColIdx(k, icol); return v; };
+  double zscale = 1; for (auto& zz : m.z) for (double t : zz) if (!FFFF(t)) zscale = std::max(zscale, std::fabs(t));
+  double gscale = 4 * zscale * zscale;
+  int ncell = mf->getSampleNumber();
+  bool bad = false, any = false;
+  int ijvar = 0;
+  for (int iv = 0; iv < nvar && !bad; iv++)
+    for (int jv = 0; jv <= iv && !bad; jv++, ijvar++)
+    {
+      VectorDouble cF = column(mf, col0 + nv2 + ijvar), gF = column(mf, col0 + ijvar), cD = column(md, col0 + nv2 + ijvar), gD = column(md, col0 + ijvar);
+      // brute force per cell
+      std::vector<double> cnt(ncell, 0.), sA(ncell, 0.), sB(ncell, 0.);
+      std::vector<int> lag(ndim), a(ndim), b(ndim);
+      for (int cell = 0; cell < ncell; cell++)
+      {
+        int t = cell; for (int d = 0; d < ndim; d++) { lag[d] = t % (2 * m.half[d] + 1) - m.half[d]; t /= (2 * m.half[d] + 1); }
+        for (int ia = 0; ia < n; ia++)
+        {
+          int u = ia, ib = 0, mul = 1; bool in = true;
+          for (int d = 0; d < ndim; d++) { a[d] = u % m.nn[d]; u /= m.nn[d]; b[d] = a[d] + lag[d]; if (b[d] < 0 || b[d] >= m.nn[d]) in = false; ib += b[d] * mul; mul *= m.nn[d]; }
+          if (!in) continue;
+          double a1 = m.z[iv][ia], a2 = m.z[iv][ib], b1 = m.z[jv][ia], b2 = m.z[jv][ib];
+          if (m.calc == VARIOGRAM)
+          {
+            if (FFFF(a1) || FFFF(a2) || FFFF(b1) || FFFF(b2)) continue;
+            cnt[cell] += 1; sA[cell] += 0.5 * (a2 - a1) * (b2 - b1);
+          }
+          else
+          {
+            // ordered pair (tail ia, head ib = ia + lag): convention A = z_iv(tail)*z_jv(head), B = z_jv(tail)*z_iv(head)
+            if (!FFFF(a1) && !FFFF(b2)) { sA[cell] += a1 * b2; }
+            if (!FFFF(b1) && !FFFF(a2)) { sB[cell] += b1 * a2; }
+            if (!FFFF(a1) && !FFFF(b2) && !FFFF(b1) && !FFFF(a2)) cnt[cell] += 1;
+          }
+        }
+      }
+      bool hetero = false; for (auto& zz : m.z) for (double t : zz) if (FFFF(t)) hetero = true;
+      std::string kc = std::string(calcName[m.calc]) + (iv != jv ? ":cross" : "") + (hetero ? ":undefined-nodes" : "");
+      // covariances on data with undefined nodes: which ends must be defined is not written -> counts judged on isotopic data
+      // or on the direct terms of the variogram only
+      bool judgeCount = m.calc == VARIOGRAM || !hetero;
+      bool judgeVal = (m.calc == VARIOGRAM || m.calc == COVARIANCE_NC) && judgeCount;
+      int orient = 0;
+      if (judgeVal && m.calc == COVARIANCE_NC && iv != jv)
+      {
+        bool okA = true, okB = true;
+        for (int cell = 0; cell < ncell; cell++)
+          if (cnt[cell] > 0) { if (std::fabs(gF[cell] - sA[cell] / cnt[cell]) > 1e-9 * gscale) okA = false; if (std::fabs(gF[cell] - sB[cell] / cnt[cell]) > 1e-9 * gscale) okB = false; }
+        if (okA != okB) { int o = okA ? 1 : -1; if (g_vmapOrient == 0) g_vmapOrient = o; orient = o; }
+        else if (okA && okB) orient = g_vmapOrient ? g_vmapOrient : 1;   // symmetric data: nothing to learn
+        else orient = g_vmapOrient ? g_vmapOrient : 1;
+        if (g_vmapOrient && orient != g_vmapOrient)
+        { C.violation("vmap:orientation-changes:" + kc, "the cross covariance map follows the opposite orientation convention to the one seen before in this run :: " + desc, kase); bad = true; break; }
+      }
+      for (int cell = 0; cell < ncell && !bad; cell++)
+      {
+        int t = cell; std::string ls = "(";
+        for (int d = 0; d < ndim; d++) { lag[d] = t % (2 * m.half[d] + 1) - m.half[d]; t /= (2 * m.half[d] + 1); ls += (d ? "," : "") + std::to_string(lag[d]); }
+        ls += ")";
+        auto where = [&]() { return " lag " + ls + " var(" + std::to_string(iv) + "," + std::to_string(jv) + ") :: " + desc; };
+        if (judgeCount)
+        {
+          if (FFFF(cF[cell]) || std::fabs(cF[cell] - cnt[cell]) > 1e-7) { C.violation("vmap:fft:pairs:" + kc, "FFT map reports " + fmt(cF[cell]) + " pairs, the definition gives " + fmt(cnt[cell]) + where(), kase); bad = true; break; }
+          if (FFFF(cD[cell]) || cD[cell] != cnt[cell]) { C.violation("vmap:direct:pairs:" + kc, "direct map reports " + fmt(cD[cell]) + " pairs, the definition gives " + fmt(cnt[cell]) + where(), kase); bad = true; break; }
+        }
+        else if (iv != jv) { if (cell == 0) C.outcome("not-judged:cross-covariance-map-of-data-with-undefined-nodes(FFT-and-direct-routes-count-differently)"); }
+        else if (std::fabs(cF[cell] - cD[cell]) > 1e-7) { C.violation("vmap:fft-vs-direct:pairs:" + kc, "FFT " + fmt(cF[cell]) + " direct " + fmt(cD[cell]) + where(), kase); bad = true; break; }
+        if (cnt[cell] <= 0 || !judgeVal) continue;
+        any = true;
+        double ref = (orient == -1 ? sB[cell] : sA[cell]) / cnt[cell];
+        if (FFFF(gF[cell]) || std::fabs(gF[cell] - ref) > 1e-9 * gscale) { C.violation("vmap:fft:value:" + kc, "FFT map value " + fmt(gF[cell]) + ", the definition gives " + fmt(ref) + where(), kase); bad = true; break; }
+        if (FFFF(gD[cell]) || std::fabs(gD[cell] - ref) > 1e-10 * gscale) { C.violation("vmap:direct:value:" + kc, "direct map value " + fmt(gD[cell]) + ", the definition gives " + fmt(ref) + where(), kase); bad = true; break; }
+        if (m.calc == VARIOGRAM)
+        {
+          int opp = ncell - 1 - cell;   // cell of -l
+          if (std::fabs(gF[cell] - gF[opp]) > 1e-9 * gscale || std::fabs(cF[cell] - cF[opp]) > 1e-7) { C.violation("vmap:fft:not-symmetric:" + kc, "cells +l and -l differ: " + fmt(gF[cell]) + " / " + fmt(gF[opp]) + where(), kase); bad = true; break; }
+        }
+      }
+    }
+  bool resonance = false;
+  for (int d = 0; d < ndim; d++) if (m.nn[d] > 1 && (m.nn[d] + m.half[d] - 1) % 8 == 0) resonance = true;
+  C.outcome(bad ? "VIOLATION" : resonance ? "ok:(nx+half-1)%8==0-in-some-dimension" : "ok:other-shapes");
+  if (any) C.nontrivial(sig);
+  delete mf; delete md; delete grid;
+  setDim(2);
+}
+static double vmapVal(int iv, int k, int pat)
+{
+  double v = iv == 0 ? (double)((k * k + 3 * k) % 7) + 0.25 * (k % 3) : (double)((5 * k + 1) % 6) - 0.5 * (k % 2);
+  bool na = pat == 1 ? ((k + iv) % 5 == 1) : pat == 2 ? (iv == 0 ? k % 3 == 0 : k % 4 == 2) : false;
+  return na ? TEST : v;
+}
+VF_PART(vmap_grid)
+{
+  // 2-D grids nx x ny: nx 3..20 (thorough ..26) with every half-size lx 1..nx-1 capped (every residue of (nx+lx-1) mod 8 and
+  // every padded length 8,16,24,32,..), ny in {1,2,5}; 3-D 4..9 x 3 x 2
+  static const int calcs[] = {VARIOGRAM, COVARIANCE_NC, COVARIANCE};
+  int nxmax = C.thorough() ? 26 : 20;
+  Space sp;
+  sp.axis("calc", 3).axis("nvar", 2).axis("na", 3).axis("shape", 4).axis("lx", 12).axis("nx", nxmax - 2);
+  auto valid = [&](const std::vector<int>& idx) {
+    int nx = 3 + idx[5], lx = 1 + idx[4];
+    if (lx > nx + 1) return false;                    // half-sizes beyond the grid are kept up to nx+1 (empty border cells)
+    if (idx[3] == 3 && nx > 9) return false;          // 3-D only for small nx
+    if (!C.thorough() && idx[1] == 1 && idx[2] == 1) return false;
+    return true;
+  };
+  for_each_valid(C, sp, valid, [&](uint64_t id, const std::vector<int>& idx) {
+    MCase m; m.calc = calcs[idx[0]];
+    int nx = 3 + idx[5], lx = 1 + idx[4], nvar = idx[1] + 1;
+    switch (idx[3])
+    {
+      case 0: m.nn = {nx, 1}; m.half = {lx, 0}; break;
+      case 1: m.nn = {nx, 2}; m.half = {lx, 1}; break;
+      case 2: m.nn = {5, nx}; m.half = {2, lx}; break;       // the long axis second
+      default: m.nn = {nx, 3, 2}; m.half = {lx, 1, 1}; break;
+    }
+    int n = 1; for (int v : m.nn) n *= v;
+    m.z.assign(nvar, std::vector<double>(n));
+    for (int iv = 0; iv < nvar; iv++) for (int k = 0; k < n; k++) m.z[iv][k] = vmapVal(iv, k, idx[2]);
+    runVmap(C, m, std::to_string(id), id);
+    if (id % 5003 == 9) C.sample("{\"id\":" + std::to_string(id) + ",\"grid\":" + vstr(m.nn) + ",\"half\":" + vstr(m.half) + ",\"calc\":" + jstr(calcName[m.calc]) + "}");
   });
 }
 
